@@ -2,6 +2,7 @@
    Model: Model/CallTree.v.  The frame-level part (every entry point issues a balanced sequence
    of add/exit, whatever the outcome) is in Props/C07 via Model/Exec.v once that file is built. *)
 From Verif Require Import Base.Bytes Model.CallTree Proofs.CallTree_proofs.
+From Verif Require Import Gen.GenProps Gen.G07.
 From Coq Require Import Sorted.
 
 (** For EVERY finite sequence of add/exit operations — balanced or not — the tree is well formed:
@@ -52,3 +53,9 @@ Proof.
     apply (bal_call 2 None [1] 0 30 [] 0 [] (Some "out of gas"%string)); constructor.
   - apply (bal_call 1 (Some 2) [] 0 100 [] 1 [] None); constructor.
 Qed.
+
+(** Tie to the source: every declaration this model mirrors (Gen/Pins.v, group 7) still has the digest
+    of the version the model was written against (regenerated from /repo on every run). *)
+Theorem C07_source_reviewed : group_ok 7 = true.
+Proof. exact gen_group_7. Qed.
+Print Assumptions C07_source_reviewed.
